@@ -10,6 +10,11 @@ BUILT = {
          "Every item of every generated solve is checked against exact ordering/interval/gap/dimension/finiteness invariants and the exact end-time rule; the workload covers 7 solvers, static and dynamic dimension, rejected steps, restarts and the complete start-up boundary sweep. Held on the executions observed, not a proof.",
          "Trusts the harness's driver (ivpdrv.rs) to record items faithfully; gap bound allows rounding of t+dt (4 eps |t|).",
          "DESIGN.md §4 C01"),
+ "C03": ("exploration",
+         "reference-model monitor: every consecutive pair of yielded points is re-derived with literature formulas (Fehlberg 4(5), Bogacki-Shampine 3(2), RK4, AB/AM, BDF) using the observed step length; first-trial accept/reject decision checked against the published estimate",
+         "Every point of every generated path (millions in the thorough tier) must be reproduced by the published one-step scheme to rounding, or satisfy the Adams PEC / BDF implicit formula over its equally spaced history within analytically derived slack, with the accepted estimate within tolerance. Exploration over seeded generic non-linear problems; held on the executions observed.",
+         "Reference formulas are transcribed from the literature in harness/src/refmodel/schemes.rs; Adams slack covers the PEC/PECE difference (30+50 L h units of L h^2 tol); BDF residual bound (1+beta h L) tol with constant 1.",
+         "DESIGN.md §4 C03"),
 }
 
 PENDING_REASON = "check not built yet in this commit (runtime monitor designed in DESIGN.md §4; will be claimed when its harness module lands)"
